@@ -1,5 +1,6 @@
 """C03 — every sample lies in the support; sampling never panics (random, single-word-adversarial and all 2^24 f32 draws)."""
 import struct
+import math
 from common import *
 import samplib as S
 
@@ -8,7 +9,7 @@ LEVEL = "proof"
 NEED_RELEASE = True
 COQ_TARGETS = ["Props/C03.vo", "Props/C03_fp.vo", "Props/C03_support.vo", "Props/C03_refuted.vo", "Props/C03_discrete.vo", "Props/C03_fl.vo"]
 PROPS_FILES = ["C03", "C03_fp", "C03_support", "C03_refuted", "C03_discrete", "C03_fl"]
-THEOREMS = ["C03_fl_source", "C03_frechet_refuted", "C03_frechet_except_known", "C03_gumbel_refuted", "C03_gumbel_except_known", "C03_beta_in_unit", "C03_gamma_nonneg", "C03_fingerprints",
+THEOREMS = ["C03_fl_source", "C03_triangular_source", "C03_triangular_fl_finite", "C03_frechet_refuted", "C03_frechet_except_known", "C03_gumbel_refuted", "C03_gumbel_except_known", "C03_beta_in_unit", "C03_gamma_nonneg", "C03_fingerprints",
             "C03_geometric_support", "C03_zeta_support", "C03_zipf_support", "C03_poisson_support", "C03_binv_support", "C03_std_geometric_support",
             "C03_beta_final_in_unit", "C03_exp_tail_defined", "C03_lognormal_pos", "C03_fisher_f_nonneg", "C03_inverse_gaussian_pos", "C03_btpe_support", "C03_binomial_support", "C03_h2pe_branch_support", "C03_hypergeometric_support"]
 TRUSTED_BASE = [
@@ -110,6 +111,60 @@ def classify(fam, ty, ps, fail):
         if s_val != 1.0 and abs(s_val - 1.0) <= 4 * (2.0 ** -23 if ty == "f32" else 2.0 ** -52):
             return "zipf-s-near-one"
     return None
+
+
+
+def r32(x):
+    import struct
+    try:
+        return struct.unpack("<f", struct.pack("<f", x))[0]
+    except OverflowError:
+        return math.copysign(math.inf, x)
+
+
+def triangular_ieee(ty, mn, mx, md, word):
+    """Props/C03_fl.v: triangular_fl evaluated in IEEE arithmetic (binary32 through binary64, one rounding per operation: products of
+    24-bit significands are exact in binary64, + - and sqrt round innocuously twice since 53 >= 2*24 + 2)"""
+    rr = (lambda z: z) if ty == "f64" else r32
+    f = (word >> 11) * 2.0 ** -53 if ty == "f64" else (word >> 40) * 2.0 ** -24
+    dmm = rr(md - mn); rng_ = rr(mx - mn); fr = rr(f * rng_)
+    if fr < dmm:
+        return rr(mn + rr(math.sqrt(rr(fr * dmm))))
+    return rr(mx - rr(math.sqrt(rr(rr(rng_ - fr) * rr(mx - md)))))
+
+
+def triangular_oracle(ctx):
+    """bit-exact tie between triangular_fl (the Flocq program of C03_triangular_fl_finite) and Triangular::sample of the crate"""
+    rng, tier = ctx["rng"], ctx["tier"]
+    jobs = []
+    for ty in ("f64", "f32"):
+        pts = []
+        for _ in range(12 if tier == "quick" else 80):
+            pts.append(S.tri(rng, ty))
+        big = 2.0 ** (510 if ty == "f64" else 62)
+        pts += [(-1.0, 1.0, 0.0), (0.0, 1.0, 1.0), (0.0, 1.0, 0.0), (-1.0, 1.0 + 3 * 2.0 ** -23, 1.0 + 3 * 2.0 ** -23), (-big, big, 0.0), (-big, big, big),
+                (1.0, S.nextafter(ty, 1.0, True), 1.0), (-3.0, -1.0, -2.0), (0.0, 2.0 ** -100, 2.0 ** -101)]
+        for (a, b, m) in pts:
+            a, b, m = S.f_round(ty, a), S.f_round(ty, b), S.f_round(ty, m)
+            if not (a <= m <= b and a < b): continue
+            words = [w for w in S.LATTICE[::3]] + [rng.u64() for _ in range(24 if tier == "quick" else 200)]
+            for w in words:
+                jobs.append((ty, a, b, m, w & (2 ** 64 - 1)))
+    lines = ["samp triangular %s %s 0 %x" % (ty, ",".join(S.f_bits(ty, v) for v in (a, b, m)), w) for ty, a, b, m, w in jobs]
+    outs = run_harness_parallel(ctx["binary"], lines)
+    fails, branch = [], {"first": 0, "second": 0}
+    for (ty, a, b, m, w), line, o in zip(jobs, lines, outs):
+        if o.startswith("E:") or o.startswith("ctorpanic"):
+            continue
+        want = triangular_ieee(ty, a, b, m, w)
+        f = (w >> 11) * 2.0 ** -53 if ty == "f64" else (w >> 40) * 2.0 ** -24
+        branch["first" if ((lambda z: z) if ty == "f64" else r32)(f * ((lambda z: z) if ty == "f64" else r32)(b - a)) < ((lambda z: z) if ty == "f64" else r32)(m - a) else "second"] += 1
+        got = o.split(";")[0].split(":")[0].lstrip("x")
+        if o.startswith("panic") or got != S.f_bits(ty, want):
+            fails.append({"property": PID, "class": "triangular-ieee", "harness_line": line[:300],
+                          "what": "Triangular<%s>(min=%r, max=%r, mode=%r) on word %x returned %s, the IEEE program triangular_fl gives %s (%r)"
+                                  % (ty, a, b, m, w, got, S.f_bits(ty, want), want)})
+    return fails, len(jobs), branch
 
 
 def correspond(ctx):
@@ -241,6 +296,9 @@ def correspond(ctx):
                     wrec("weighted-index-range" if i >= len(ws) else "weighted-zero-weight", ty, line,
                          "%s<%s>: sampled index %d for integer weights %s" % (kind, ty, i, ws)); wfail[kind] += 1
     evals += len(wouts)
+    tfails, tjobs, tbranch = triangular_oracle(ctx)
+    oracle_failures += tfails[:20]
+    evals += tjobs
     return {
         "evaluations": evals, "distinct_nontrivial": len(lines) + len(wouts),
         "rule": "weighted index distributions: float/integer alias tables and trees with the largest threshold/target draws and lattice words "
@@ -253,7 +311,8 @@ def correspond(ctx):
         "mismatches": [], "oracle_failures": oracle_failures,
         "exhaustive": False,
         "extra": {"lattice_words": len(lattice), "sweeps_2p24": sum(1 for m in meta if m[0] == "sweep"),
-                  "failure_records": fails_seen, "failure_classes": classes, "weighted_index_cases": len(wouts), "weighted_index_failures": wfail, "watchdog_hangs": hangs, "parameter_points": len(pts)},
+                  "failure_records": fails_seen, "failure_classes": classes, "weighted_index_cases": len(wouts), "weighted_index_failures": wfail, "watchdog_hangs": hangs, "parameter_points": len(pts),
+                  "triangular_ieee_oracle": {"cases": tjobs, "branches": tbranch, "failures": len(tfails)}},
     }
 
 
